@@ -54,6 +54,8 @@ Cases ==
   \cup {[als |-> [k \in 1..m |-> Al(m - k + 1, 7, IF k = 2 THEN AaCyc ELSE NtCyc, FALSE)], chain |-> <<h>>] : m \in 2..3, h \in PhylipHops({"mem"}, Bools)}
   \cup {[als |-> <<[rows |-> <<[n |-> <<116, 101, 110, 99, 104, 97, 114, 115, 95, 49>>, s |-> RowOf(NtCyc, 1, len)], [n |-> <<98>>, s |-> RowOf(NtCyc, 2, len)]>>]>>,
           chain |-> <<h>>] : len \in {9, 60, 61}, h \in PhylipHops({"mem", "file"}, Bools)}
+  \* more alignments in one stream than the reader's channel holds (its capacity is 15): bootstrap replicates in one file
+  \cup {[als |-> [k \in 1..m |-> Al(1 + (k % 3), 5, NtCyc, FALSE)], chain |-> <<h>>] : m \in {15, 16, 17, 40}, h \in PhylipHops({"mem"}, {TRUE})}
   \cup AffixCases
   \cup (IF Scope = "full" THEN {[als |-> <<Al(1, len, NtCyc, FALSE)>>, chain |-> ch] : len \in {1, 60, 121}, ch \in Chains3}
                                 \cup {[als |-> <<Al(3, len, AaCyc, FALSE)>>, chain |-> ch] : len \in Lens, ch \in Chains1}
